@@ -346,9 +346,11 @@ def second_file(rng, lines):
             parts = ln["s"].split()
             k = 1 + N_INT_FIELDS.get(parts[0], 1)
             new = []
-            for x in parts[k:]:
+            for pos, x in enumerate(parts[k:]):
                 v = float(x)
                 nv = v * rng.choice([2.0, 0.5, -1.0, 1.5]) + rng.choice([0.0, 0.25, -0.125, 1.0])
+                if parts[0] == "EDGE_SE3:QUAT" and 3 <= pos <= 6:
+                    nv = -v  # a measurement quaternion must stay non-zero (it is normalised on import); q -> -q
                 new.append(repr(nv) if math.isfinite(nv) else x)
             ln2["s"] = " ".join(parts[:k] + new)
         out.append(ln2)
